@@ -114,7 +114,7 @@ class Chipset(object):
             return "Error 0x{0:02X}: {1}".format(self.errno, self.strerr)
 
     def chipset_error(self, cause):
-        if cause is None:
+        if cause is None or (type(cause) is not int and len(cause) == 0):
             errno = 0xff
         elif type(cause) is int:
             errno = cause
@@ -319,6 +319,9 @@ class Chipset(object):
         args = [addr(reg) for reg in args]
         data = b''.join([pack(">H", reg) for reg in args])
         data = self._read_register(data)
+        if len(data) < len(args):
+            self.log.error("register values missing in chip response")
+            raise IOError(errno.EIO, os.strerror(errno.EIO))
         return list(data) if len(data) > 1 else data[0]
 
     def _read_register(self, data):
@@ -373,7 +376,7 @@ class Chipset(object):
         nf = (bool(passive_data) | bool(nfcid3) << 1 | bool(gi) << 2)
         data = bytearray([cm, br, nf]) + passive_data + nfcid3 + gi
         data = self.command(0x56, bytearray(data), timeout=3.0)
-        if data is None or data[0] != 0:
+        if not data or data[0] != 0:
             self.chipset_error(data)
         return data[2:]
 
@@ -391,7 +394,7 @@ class Chipset(object):
         nf = (bool(passive_data) | bool(nfcid3) << 1 | bool(gi) << 2)
         data = bytearray([cm, br, nf]) + passive_data + nfcid3 + gi
         data = self.command(0x46, data, timeout=3.0)
-        if data is None or data[0] != 0:
+        if not data or data[0] != 0:
             self.chipset_error(data)
         return data[2:]
 
@@ -406,20 +409,20 @@ class Chipset(object):
         flag = int(bool(nfcid3i)) | (int(bool(gi)) << 1)
         data = bytearray([1, flag]) + nfcid3i + gi
         data = self.command(0x50, data, timeout=1.5)
-        if data is None or data[0] != 0:
+        if not data or data[0] != 0:
             self.chipset_error(data)
         return data[1:]
 
     def in_psl(self, br_it, br_ti):
         data = bytearray([1, br_it, br_ti])
         data = self.command(0x4E, data, timeout=1.0)
-        if data is None or data[0] != 0:
+        if not data or data[0] != 0:
             self.chipset_error(data)
 
     def in_data_exchange(self, data, timeout, more=False):
         data = self.command(0x40, bytearray([int(more) << 6 | 0x01]) + data,
                             timeout)
-        if data is None or data[0] & 0x3f != 0:
+        if not data or data[0] & 0x3f != 0:
             self.chipset_error(data[0] & 0x3f if data else None)
         return data[1:], bool(data[0] & 0x40)
 
@@ -433,23 +436,23 @@ class Chipset(object):
 
     def tg_set_general_bytes(self, gb):
         data = self.command(0x92, gb, timeout=0.1)
-        if data is None or data[0] != 0:
+        if not data or data[0] != 0:
             self.chipset_error(data)
 
     def tg_get_data(self, timeout):
         data = self.command(0x86, b'', timeout)
-        if data is None or data[0] & 0x3f != 0:
+        if not data or data[0] & 0x3f != 0:
             self.chipset_error(data[0] & 0x3f if data else None)
         return data[1:], bool(data[0] & 0x40)
 
     def tg_set_data(self, data, timeout):
         data = self.command(0x8E, data, timeout)
-        if data is None or data[0] != 0:
+        if not data or data[0] != 0:
             self.chipset_error(data)
 
     def tg_set_meta_data(self, data, timeout):
         data = self.command(0x94, data, timeout)
-        if data is None or data[0] != 0:
+        if not data or data[0] != 0:
             self.chipset_error(data)
 
     def tg_get_initiator_command(self, timeout):
@@ -462,7 +465,7 @@ class Chipset(object):
 
     def tg_response_to_initiator(self, data):
         data = self.command(0x90, data, timeout=1.0)
-        if data is None or data[0] != 0:
+        if not data or data[0] != 0:
             self.chipset_error(data)
 
     def tg_get_target_status(self):
@@ -541,6 +544,7 @@ class Device(device.Device):
 
         rsp = self.chipset.in_list_passive_target(1, 0, uid)
         if rsp is not None:
+            self._check_target_data_size(rsp, 8)  # SENS, SEL, LEN, NFCID1
             sens_res, sel_res, sdd_res = rsp[1::-1], rsp[2:3], rsp[4:]
             if sel_res[0] & 0x60 == 0x00:
                 self.log.debug("disable crc check for type 2 tag")
@@ -562,6 +566,7 @@ class Device(device.Device):
 
         rsp = self.chipset.in_list_passive_target(1, 4, b"")
         if rsp is not None:
+            self._check_target_data_size(rsp, 2)  # SENS_RES
             rid_cmd = bytearray.fromhex("78 0000 00000000")
             try:
                 rid_res = self.chipset.in_data_exchange(rid_cmd, 0.01)[0]
@@ -580,6 +585,8 @@ class Device(device.Device):
 
         afi = target.sensb_req[0:1] if target.sensb_req else b'\x00'
         rsp = self.chipset.in_list_passive_target(1, brty, afi)
+        if rsp is not None:
+            self._check_target_data_size(rsp, 12)  # SENSB_RES
         if rsp and rsp[10] & 0b00001001 == 0b00000001:
             # This is an ISO tag and the chipset has now activated it
             # with 64-byte max frame size and maybe a DID. Because we
@@ -615,6 +622,7 @@ class Device(device.Device):
         sensf_req = target.sensf_req if target.sensf_req else default_sensf_req
         rsp = self.chipset.in_list_passive_target(1, brty, sensf_req)
         if rsp is not None:
+            self._check_target_data_size(rsp, 18)  # LEN, 01h, IDm, PMm
             return nfc.clf.RemoteTarget(target.brty, sensf_res=rsp[1:])
 
     @chipset_error_is_ioerror
@@ -633,6 +641,8 @@ class Device(device.Device):
         gbytes = target.atr_req[16:]
         try:
             data = self.chipset.in_jump_for_psl(1, br, b'', nfcid3, gbytes)
+            if len(data) < 15:  # NFCID3t, DIDt, BSt, BRt, TO, PPt
+                self.chipset.chipset_error(None)
             atr_res = b'\xD5\x01' + data
         except Chipset.Error as error:
             if error.errno not in (0x01, 0x0A):
@@ -645,6 +655,14 @@ class Device(device.Device):
         self.log.debug("running DEP in {0} kbps active mode".format(br))
         return nfc.clf.RemoteTarget(target.brty, atr_res=atr_res,
                                     atr_req=target.atr_req)
+
+    def _check_target_data_size(self, data, min_size):
+        # The chip reported a target but less than the fixed size
+        # part of the target data, the response was cut somewhere
+        # between the chip and the host.
+        if len(data) < min_size:
+            self.log.error("target data missing in chip response")
+            raise IOError(errno.EIO, os.strerror(errno.EIO))
 
     def get_max_send_data_size(self, target):
         return self.chipset.host_command_frame_max_size - 2
@@ -775,6 +793,10 @@ class Device(device.Device):
                     raise error
                 else:
                     return None
+
+            if not data:
+                self.log.error("no data in TgInitAsTarget response")
+                raise IOError(errno.EIO, os.strerror(errno.EIO))
 
             brty = ("106A", "212F", "424F")[(data[0] & 0x70) >> 4]
             self.log.debug("%s rcvd %s",
@@ -936,7 +958,11 @@ class Device(device.Device):
                 if error.errno != errno.ETIMEDOUT:
                     raise error
             else:
-                if not (data[1] == len(data)-1 and data[2:4] == b'\xD4\x00'):
+                if not data:
+                    self.log.error("no data in TgInitAsTarget response")
+                    raise IOError(errno.EIO, os.strerror(errno.EIO))
+                if not (len(data) > 1 and data[1] == len(data)-1
+                        and data[2:4] == b'\xD4\x00'):
                     self.log.debug("expected ATR_REQ but got %s",
                                    hexlify(memoryview(data)[1:]).decode())
                 else:
